@@ -13,7 +13,7 @@ HEADER = """From Coq Require Import List ZArith NArith Bool Arith.
 Import ListNotations.
 From PyccoloV Require Import gen.Events model.Tree model.Erase model.RwFrag model.FragSem model.FragLoop.
 Local Open Scope N_scope.
-Definition encv (v : val) : Z * Z := match v with VInt z => (0, z) | VBool b => (1, if b then 1 else 0) | VNone => (2, 0) | VStr s => (3, Z.of_N s) | VFun _ => (4, 0) end%Z.
+Definition encv (v : val) : Z * Z := match v with VInt z => (0, z) | VBool b => (1, if b then 1 else 0) | VNone => (2, 0) | VStr s => (3, Z.of_N s) | VFun _ | VBuiltin _ => (4, 0) | VRange _ _ => (9, 0) end%Z.
 Definition enco (o : option val) : Z * Z := match o with Some v => encv v | None => (4, 0)%Z end.
 Definition ence (en : entry) := (event_idx (fst (fst en)), snd (fst en), enco (snd en)).
 Definition encx (x : option lexc) : N := match x with None => 0 | Some (LX ENameError) => 1 | Some (LX ETypeError) => 2 | Some (LX EZeroDiv) => 3 | Some LFuel => 8 | Some LBrk => 6 | Some LCnt => 7 end.
